@@ -245,11 +245,12 @@ def build_success_outcome(
 def emit_max_attempts_exceeded(
     state: _RetryState,
     policy: _BaseRetryPolicy,
+    attempts: int | None = None,
 ) -> None:
     """Emit the max_attempts_exceeded event and update state."""
     state.emit(
         EventName.MAX_ATTEMPTS_EXCEEDED.value,
-        policy.max_attempts,
+        policy.max_attempts if attempts is None else attempts,
         0.0,
         state.last_class,
         state.last_exc,
@@ -259,18 +260,22 @@ def emit_max_attempts_exceeded(
     state.last_stop_reason = StopReason.MAX_ATTEMPTS_GLOBAL
 
 
-def raise_exhausted_call(state: _RetryState, policy: _BaseRetryPolicy) -> NoReturn:
+def raise_exhausted_call(
+    state: _RetryState, policy: _BaseRetryPolicy, attempts: int | None = None
+) -> NoReturn:
     """
     Handle retry exhaustion in call mode - emit event and raise appropriate exception.
 
     This is called when the retry loop completes all attempts without success.
+    ``attempts`` is the number of attempts actually made (policy.max_attempts may have
+    been changed while the run was in flight).
     """
-    emit_max_attempts_exceeded(state, policy)
+    emit_max_attempts_exceeded(state, policy, attempts)
 
     if state.last_cause == "result":
         raise RetryExhaustedError(
             stop_reason=StopReason.MAX_ATTEMPTS_GLOBAL,
-            attempts=policy.max_attempts,
+            attempts=policy.max_attempts if attempts is None else attempts,
             last_class=state.last_class,
             last_exception=None,
             last_result=state.last_result,
@@ -293,7 +298,7 @@ def build_exhausted_outcome(
     """
     from ..retry_helpers import _build_outcome
 
-    emit_max_attempts_exceeded(state, policy)
+    emit_max_attempts_exceeded(state, policy, attempts)
 
     return _build_outcome(
         ok=False,
